@@ -321,6 +321,29 @@ func c13StubOps() []c13Op {
 			return ""
 		})
 	}
+	for _, kk := range keys {
+		kk := kk
+		add("hardcert-keytype-"+kk.n, func(cl yubiagent.YubiAgent, st *stubAgent) string {
+			st.Err = nil
+			crt := fix.SSHCert(fix.Pub(kk.priv), hwKeyY, 0, 1<<40, nil, "alice")
+			for _, legacy := range []bool{false, true} {
+				var err error
+				if legacy {
+					_, err = cl.Forward(append([]byte{31}, crt.Marshal()...))
+				} else {
+					err = cl.AddHardCert(crt, "slot 9a")
+				}
+				c, m := last(st, "AddHardCert")
+				if m != "" {
+					return m
+				}
+				if !bytes.Equal(c.KeyBlob, crt.Marshal()) || err != nil {
+					return fmt.Sprintf("AddHardCert(%s certificate, legacy=%v): blob equal=%v err=%v", kk.n, legacy, bytes.Equal(c.KeyBlob, crt.Marshal()), err)
+				}
+			}
+			return ""
+		})
+	}
 	add("hardcert-legacy-encoding", func(cl yubiagent.YubiAgent, st *stubAgent) string {
 		st.Err = nil
 		resp, err := cl.Forward(append([]byte{31}, certH1.Marshal()...))
@@ -801,7 +824,7 @@ func checkC13(c *ev.Ctx) {
 	}
 	c.Set("operations_alone", len(list))
 	gen := []string{"list-2", "list-error", "sign-ed25519-data64-flags0", "sign-rsa-data65536-flags2", "sign-error", "add-ed25519-certfalse-life1-confirmfalse", "add-rsa-certtrue-life4294967295-confirmtrue",
-		"error-Add", "remove-ecdsa", "error-Remove", "remove-all", "Lock-pass1", "Unlock-pass300", "error-Unlock", "signers", "hardcert-comment13", "hardcert-legacy-encoding", "hardcert-error-x",
+		"error-Add", "remove-ecdsa", "error-Remove", "remove-all", "Lock-pass1", "Unlock-pass300", "error-Unlock", "signers", "hardcert-comment13", "hardcert-legacy-encoding", "hardcert-keytype-rsa", "hardcert-keytype-ecdsa", "hardcert-error-x",
 		"hardcert-error-SUCCESSO", "wait-40", fmt.Sprintf("wait-error-%.8s", "échec ü"), "listslots-3", "listslots-error-x", "ReadSlot-cert0-slot\"9a\"", "AttestSlot-cert1-slot\"\"", "readslot-error-x",
 		"forward-201-len1-resp1", "forward-202-len65537-resp70000", "extension-payload", "extension-unsupported", "smartcard-add"}
 	var genOK []string
